@@ -16,6 +16,7 @@ type NumV struct {
 	T   *Term    // symbolic value (Int sort)
 	Ann int      // announced length in bits (saferith); for symbolic values an upper bound chosen at creation
 	B   []*Term  // source bytes when the value was read from (symbolic) big-endian bytes
+	Plain *Term  // ideal-Paillier mode: the plaintext carried by a ciphertext
 }
 
 func (*NumV) ModelName() string { return "num" }
@@ -105,7 +106,13 @@ func (in *Interp) numUF(name string, ann int, args ...*NumV) *NumV {
 		ts[i] = a.term()
 	}
 	in.stubsSeen["num-model:UF "+name] = true
-	return symNum(App(name, IntSort, ts...), ann)
+	r := App(name, IntSort, ts...)
+	if name == "modexp" || name == "modexpi" || name == "modinv" {
+		// results of modular operations are residues of the modulus (last argument)
+		m := ts[len(ts)-1]
+		in.assumeAxiom(And(Le(IntConstI(0), r), Lt(r, m)))
+	}
+	return symNum(r, ann)
 }
 
 func maxInt(a, b int) int {
@@ -459,7 +466,11 @@ func init() {
 			}
 			return in.setNum(a[0], &NumV{C: r, Ann: m.Ann})
 		}
-		return in.setNum(a[0], in.numUF("modexpi", m.Ann, x, e, m))
+		// as saferith implements it: the positive power, or its modular inverse for a negative exponent
+		abs := symNum(Ite(Lt(e.term(), IntConstI(0)), Neg(e.term()), e.term()), e.Ann)
+		pos := in.numUF("modexp", m.Ann, x, abs, m)
+		inv := in.numUF("modinv", m.Ann, pos, m)
+		return in.setNum(a[0], symNum(Ite(Lt(e.term(), IntConstI(0)), inv.term(), pos.term()), m.Ann))
 	})
 	N("CondAssign", func(in *Interp, fr *Frame, a []Value) Value {
 		z, x := in.num(a[0]), in.num(a[2])
